@@ -36,25 +36,55 @@ type Augment struct {
 }
 
 type Grouping struct {
-	N  string     `json:"n"`
-	C  []Stmt     `json:"c"`
-	Gs []Grouping `json:"gs"`
+	N   string     `json:"n"`
+	C   []Stmt     `json:"c"`
+	Gs  []Grouping `json:"gs"`
+	Tds []Typedef  `json:"tds"`
+}
+
+type EnumV struct {
+	L string `json:"l"`
+	V int    `json:"v"`
+}
+
+type TypeStmt struct {
+	P   string  `json:"p"`
+	N   string  `json:"n"`
+	Rng string  `json:"rng"`
+	En  []EnumV `json:"en"`
+}
+
+type Typedef struct {
+	N     string   `json:"n"`
+	Ty    TypeStmt `json:"ty"`
+	Dflt  string   `json:"dflt"`
+	Units string   `json:"units"`
+}
+
+// EffType: base built-in type, ranges stated along the chain (nearest first), enum values
+type EffType struct {
+	Base string   `json:"base"`
+	Rngs []string `json:"rngs"`
+	En   []EnumV  `json:"en"`
 }
 
 type Stmt struct {
-	K    string     `json:"k"`
-	N    string     `json:"n"`
-	Ref0 Ref        `json:"ref0"`
-	Cfg  string     `json:"cfg"`
-	Mand string     `json:"mand"`
-	Dflt string     `json:"dflt"`
-	Desc string     `json:"desc"`
-	Iff  string     `json:"iff"`
-	Keys []string   `json:"keys"`
-	C    []Stmt     `json:"c"`
-	Gs   []Grouping `json:"gs"`
-	Ref  []Refine   `json:"ref"`
-	Aug  []Augment  `json:"aug"`
+	K     string     `json:"k"`
+	N     string     `json:"n"`
+	Ref0  Ref        `json:"ref0"`
+	Cfg   string     `json:"cfg"`
+	Mand  string     `json:"mand"`
+	Dflt  string     `json:"dflt"`
+	Desc  string     `json:"desc"`
+	Iff   string     `json:"iff"`
+	Keys  []string   `json:"keys"`
+	C     []Stmt     `json:"c"`
+	Gs    []Grouping `json:"gs"`
+	Ref   []Refine   `json:"ref"`
+	Aug   []Augment  `json:"aug"`
+	Ty    TypeStmt   `json:"ty"`
+	Units string     `json:"units"`
+	Tds   []Typedef  `json:"tds"`
 }
 
 type Import struct {
@@ -68,6 +98,7 @@ type Module struct {
 	Sub      bool       `json:"sub"`
 	Belongs  string     `json:"belongs"`
 	Gs       []Grouping `json:"gs"`
+	Tds      []Typedef  `json:"tds"`
 	Body     []Stmt     `json:"body"`
 	Augs     []Augment  `json:"augs"`
 	Includes []string   `json:"includes"`
@@ -79,21 +110,64 @@ type ModuleSet map[string]Module
 // Node: a node of the compiled tree in the shape of Meaning's result, plus what the
 // public accessors say about the integrity of the copy.
 type Node struct {
-	K    string   `json:"k"`
-	N    string   `json:"n"`
-	Cfg  bool     `json:"cfg"`
-	Mand bool     `json:"mand"`
-	Dflt string   `json:"dflt"`
-	Desc string   `json:"desc"`
-	Keys []string `json:"keys"`
-	C    []Node   `json:"c"`
+	K     string   `json:"k"`
+	N     string   `json:"n"`
+	Cfg   bool     `json:"cfg"`
+	Mand  bool     `json:"mand"`
+	Dflt  string   `json:"dflt"`
+	Desc  string   `json:"desc"`
+	Keys  []string `json:"keys"`
+	Units string   `json:"units"`
+	Et    EffType  `json:"et"`
+	C     []Node   `json:"c"`
 }
 
 func ind(n int) string { return strings.Repeat("  ", n) }
 
+func renderType(sb *strings.Builder, t TypeStmt, d int) {
+	name := t.N
+	if t.P != "" {
+		name = t.P + ":" + name
+	}
+	if name == "" {
+		name = "string"
+	}
+	if t.Rng == "" && len(t.En) == 0 {
+		fmt.Fprintf(sb, "%stype %s;\n", ind(d), name)
+		return
+	}
+	fmt.Fprintf(sb, "%stype %s {\n", ind(d), name)
+	if t.Rng != "" {
+		fmt.Fprintf(sb, "%srange %q;\n", ind(d+1), t.Rng)
+	}
+	for _, e := range t.En {
+		if e.V >= 0 {
+			fmt.Fprintf(sb, "%senum %s {\n%svalue %d;\n%s}\n", ind(d+1), e.L, ind(d+2), e.V, ind(d+1))
+		} else {
+			fmt.Fprintf(sb, "%senum %s;\n", ind(d+1), e.L)
+		}
+	}
+	fmt.Fprintf(sb, "%s}\n", ind(d))
+}
+
+func renderTypedefs(sb *strings.Builder, tds []Typedef, d int) {
+	for _, t := range tds {
+		fmt.Fprintf(sb, "%stypedef %s {\n", ind(d), t.N)
+		renderType(sb, t.Ty, d+1)
+		if t.Dflt != "" {
+			fmt.Fprintf(sb, "%sdefault %q;\n", ind(d+1), t.Dflt)
+		}
+		if t.Units != "" {
+			fmt.Fprintf(sb, "%sunits %q;\n", ind(d+1), t.Units)
+		}
+		fmt.Fprintf(sb, "%s}\n", ind(d))
+	}
+}
+
 func renderGroupings(sb *strings.Builder, gs []Grouping, d int) {
 	for _, g := range gs {
 		fmt.Fprintf(sb, "%sgrouping %s {\n", ind(d), g.N)
+		renderTypedefs(sb, g.Tds, d+1)
 		renderGroupings(sb, g.Gs, d+1)
 		renderStmts(sb, g.C, d+1)
 		fmt.Fprintf(sb, "%s}\n", ind(d))
@@ -126,7 +200,11 @@ func renderStmts(sb *strings.Builder, ss []Stmt, d int) {
 			if s.K == "leaflist" {
 				kw = "leaf-list"
 			}
-			fmt.Fprintf(sb, "%s%s %s {\n%stype string;\n", ind(d), kw, s.N, ind(d+1))
+			fmt.Fprintf(sb, "%s%s %s {\n", ind(d), kw, s.N)
+			renderType(sb, s.Ty, d+1)
+			if s.Units != "" {
+				fmt.Fprintf(sb, "%sunits %q;\n", ind(d+1), s.Units)
+			}
 			renderProps(sb, s, d+1)
 			fmt.Fprintf(sb, "%s}\n", ind(d))
 		case "uses":
@@ -156,6 +234,7 @@ func renderStmts(sb *strings.Builder, ss []Stmt, d int) {
 				fmt.Fprintf(sb, "%skey %q;\n", ind(d+1), strings.Join(s.Keys, " "))
 			}
 			renderProps(sb, s, d+1)
+			renderTypedefs(sb, s.Tds, d+1)
 			renderGroupings(sb, s.Gs, d+1)
 			renderStmts(sb, s.C, d+1)
 			fmt.Fprintf(sb, "%s}\n", ind(d))
@@ -183,6 +262,7 @@ func RenderModule(m Module, features []string) string {
 			fmt.Fprintf(&sb, "  feature %s;\n", f)
 		}
 	}
+	renderTypedefs(&sb, m.Tds, 1)
 	renderGroupings(&sb, m.Gs, 1)
 	renderStmts(&sb, m.Body, 1)
 	for _, a := range m.Augs {
@@ -205,7 +285,18 @@ func toNodes(kids []PNode, parentCfg bool, parentName string, path string, in *i
 		case "rpc", "notification", "again":
 			continue
 		}
-		n := Node{K: k.K, N: k.N, Mand: k.Mand == "true", Desc: k.Desc, Keys: k.Keys, C: []Node{}}
+		n := Node{K: k.K, N: k.N, Mand: k.Mand == "true", Desc: k.Desc, Keys: k.Keys, C: []Node{}, Units: k.Units, Et: EffType{Rngs: []string{}, En: []EnumV{}}}
+		if k.Type != nil {
+			n.Et.Base = strings.TrimSuffix(k.Type.Format, "-list")
+			n.Et.Rngs = append(n.Et.Rngs, k.Type.Ranges...)
+			for _, e := range k.Type.Enums {
+				if i := strings.LastIndexByte(e, '='); i > 0 {
+					v := 0
+					fmt.Sscan(e[i+1:], &v)
+					n.Et.En = append(n.Et.En, EnumV{L: e[:i], V: v})
+				}
+			}
+		}
 		if n.K == "leaf-list" {
 			n.K = "leaflist"
 		}
